@@ -18,6 +18,12 @@ structure KeyItem where
   oct : Bytes              -- `oct.key[0..oct.len)`; meaningful for `kty = oct`
   deriving Repr, Inhabited
 
+/-- what the provider glue itself refuses before touching the library: the GnuTLS backend has no
+secp256k1 (`if (jwt->alg == JWT_ALG_ES256K) …ERROR("ES256K not supported")`, gnutls/sign-verify.c) -/
+def Provider.supports : Provider → Alg → Bool
+  | .gnutls, .es256k => false
+  | _, _ => true
+
 /-- the family an algorithm's key must belong to -/
 def Alg.family : Alg → Kty
   | .hs256 | .hs384 | .hs512 => .oct
